@@ -26,7 +26,8 @@ def corr_follow(res, tier):
     rng = vlib.rng("C04-follow")
     n = 220 if tier == "quick" else 1500
     lines, real, hist = [], [], {"inc": 0, "dec": 0, "nonmono-refused": 0, "nonmono-ran": 0, "inside": 0, "at-end": 0, "outside": 0, "on-value": 0}
-    kinds = [("psi=R", lambda R, Z: 1.0 + 0.0 * R, lambda R, Z: 0.0 * R, lambda p0, psi0, v: (p0[0] + (v - psi0), p0[1])),
+    kinds = [("psi=R^2", lambda R, Z: 0.5 / R, lambda R, Z: 0.0 * R, None),
+             ("psi=R", lambda R, Z: 1.0 + 0.0 * R, lambda R, Z: 0.0 * R, lambda p0, psi0, v: (p0[0] + (v - psi0), p0[1])),
              ("psi=2Z", lambda R, Z: 0.0 * R, lambda R, Z: 0.5 + 0.0 * R, lambda p0, psi0, v: (p0[0], p0[1] + 0.5 * (v - psi0)))]
     for _ in range(n):
         m = rng.randint(2, 9)
@@ -49,6 +50,9 @@ def corr_follow(res, tier):
             psi0 = rng.choice([min(vals) - F(rng.randint(1, 9), 8), max(vals) + F(rng.randint(1, 9), 8)])
         name, fR, fZ, exact = rng.choice(kinds)
         p0 = (rng.uniform(1, 2), rng.uniform(-1, 1))
+        if name == "psi=R^2":
+            # dR/dpsi = 1/(2R): R(psi) = sqrt(R0^2 + psi - psi0); keep the radicand positive over the whole request
+            p0 = (float(np.sqrt(max(1.0, float(psi0 - min(min(vals), psi0)) + 1.0))), p0[1])
         try:
             with contextlib.redirect_stdout(io.StringIO()), warnings.catch_warnings():
                 warnings.simplefilter("ignore")
@@ -67,6 +71,8 @@ def corr_follow(res, tier):
         for q in pts:
             if name == "psi=R":
                 got.append(float(psi0) + (q.R - p0[0]))
+            elif name == "psi=R^2":
+                got.append(float(psi0) + (q.R ** 2 - p0[0] ** 2))
             else:
                 got.append(float(psi0) + 2.0 * (q.Z - p0[1]))
         lines.append("c04f %s %s" % (psi0, " ".join(str(v) for v in vals)))
@@ -75,9 +81,9 @@ def corr_follow(res, tier):
     for (got, vals, psi0, mode, name), o in zip(real, out):
         model = [float(F(x)) for x in o.split()]
         res.case(key=("follow", mode, len(vals), psi0 < min(vals), psi0 > max(vals)), nontrivial=True)
-        ok = len(model) == len(got) and all(abs(a - b) < 1e-6 for a, b in zip(model, got))
+        ok = len(model) == len(got) and all(abs(a - b) < 5e-6 for a, b in zip(model, got))  # (solve_ivp's dense output is less accurate than rtol)
         if not ok:
-            if mode != "nonmono" and len(got) == len(vals) and any(abs(g - float(v)) > 1e-6 for g, v in zip(got, vals)):
+            if mode != "nonmono" and len(got) == len(vals) and any(abs(g - float(v)) > 1e-3 for g, v in zip(got, vals)):
                 res.violation("follow-order", "followPerpendicular returns the points of a monotone psi list %s (psi0=%s) in the wrong order: %s"
                               % ([str(v) for v in vals], psi0, [round(g, 6) for g in got]), {"psivals": [str(v) for v in vals], "psi0": str(psi0), "flow": name})
             else:
@@ -101,7 +107,9 @@ def specs_for0(tier):
     S = [gridlab.tokamak_spec("lsn", extract=ex), gridlab.tokamak_spec("udn2", options={"psinorm_sol": 1.3}, extract=ex), gridlab.tokamak_spec("ldn", extract=ex),
          # both separatrices inside the grid with 2 inter-separatrix surfaces / a narrow private flux range
          gridlab.tokamak_spec("udn2", options={"nx_inter_sep": 2, "psinorm_sol": 1.3, "psinorm_pf": 0.9}, extract=ex),
-         gridlab.tokamak_spec("ldn", options={"nx_inter_sep": 1, "psinorm_sol": 1.1, "psinorm_pf": 0.95}, extract=ex)]
+         gridlab.tokamak_spec("ldn", options={"nx_inter_sep": 1, "psinorm_sol": 1.1, "psinorm_pf": 0.95}, extract=ex),
+         # tolerances tighter than the defaults: every radial line must honour them, whichever branch of followPerpendicular it takes
+         gridlab.tokamak_spec("lsn", options={"follow_perpendicular_rtol": 1e-11, "follow_perpendicular_atol": 1e-11}, extract=ex)]
     if tier == "thorough":
         S += [gridlab.tokamak_spec(g, extract=ex) for g in ("usn", "cdn", "udn")]
         S.append(gridlab.tokamak_spec("lsn", options={"psinorm_core": 0.8, "psinorm_sol": 1.15, "psinorm_pf": 0.85, "nx_core": 3}, extract=ex))
